@@ -263,3 +263,14 @@ Fixpoint save_ec (ack : node -> bool) (lists : list (list node)) (ecr : list (na
       let '(s, l) := save_ec ack lists ecr rest scheds in (s, (e, st) :: l)
     else (Failed, [(e, st)])
   end.
+
+(* saveObject entry for REP rules: an object sealed by the client (no session
+   signer) under an initial policy needs a limit for every REP rule *)
+Definition put_rep (session : bool) (ack : node -> bool) (local : node) (lists : list (list node))
+           (rep : list nat) (ini : option initial) : status * rprog * list nat :=
+  match ini with
+  | Some i => if negb session && Nat.ltb (length (i_limits i)) (length rep)
+              then (Failed, mkRP [] [], [])
+              else save_rep ack local lists rep ini
+  | None => save_rep ack local lists rep ini
+  end.
